@@ -634,42 +634,21 @@ example : RbV.Gen.SrcPwModes.semiglobal_ probeCustom probeAligner [1] [2] =
 example : RbV.Gen.SrcPwModes.local_ probeCustom probeAligner [1] [2] =
     .ok ({ (default : Alignment) with score := 0, mode := .Local }, { probeAligner with Lx := [1] }) := by decide
 
-/-- **One cell of the main loop of `Aligner::custom` (translated text) = the checked-`i32` mirror, modulo ties.**
-`RbV.Gen.SrcPwCustom.custom_for5` is the body of `for i in 1..m + 1` as translated from the text; its three tie-breaks are
-parameters (`T`).  On every aligner state whose vectors have the lengths `custom` gives them (`Dims`), for `1 ≤ i ≤ m`,
-`1 ≤ j ≤ n`, `S[curr][i]` reset to `MIN_SCORE` (unless `i = m`) and valid codes `tsL`, `tsU` in the S fields of the cells
-`(i−1, j)`, `(i, j−1)`: the body panics exactly when `stepJT T` is `none` (an `i32` overflow) and otherwise writes exactly that
-row — `S/I/D[curr][i]`, the register `S[curr][m]`, `Sn[i]`, `Ly[i]`, `Lx[j]`, the bit-packed cell `(i, j)` — and nothing else
-(`writeRow`).  `stepJT` is `stepJC` of `Model/PairwiseFillI32.lean` with the tie-breaks as parameters. -/
-theorem cell_update_source_eq_model_mod_ties (w : Nat → Nat → Int) (T : GenSrcPwCustom.Ties)
-    (a : RbV.Gen.SrcPwTypes.Aligner) (x : List Nat) (m n i j q : Nat) (xclip : Int)
-    (tsL tsU : RbV.Model.PairwiseFill.Tb) (hd : GenSrcPwCustom.Dims a m n) (hx : x.length = m) (hi : 1 ≤ i) (him : i ≤ m)
-    (hj : 1 ≤ j) (hjn : j ≤ n) (hreset : i ≠ m → (a.S.getD (j % 2) []).getD i 0 = minScore)
-    (hL : GenSrcPwCustom.SIs a (i - 1) j tsL) (hU : GenSrcPwCustom.SIs a i (j - 1) tsU) :
-    RbV.Gen.SrcPwCustom.custom_for5 w T.iT T.dT T.snT T.sn0T x m n j (j % 2) (1 - j % 2) q xclip a i =
-      GenSrcPwCustom.ofOpt (GenSrcPwCustom.stepJT T (GenSrcPwCustom.scOf w a) (GenSrcPwCustom.clOf a) m n j i (x.getD (i - 1) 0) q
-          xclip (GenSrcPwCustom.rowPrev1 a (1 - j % 2) (i - 1)) (GenSrcPwCustom.rowPrev a (1 - j % 2) i tsU)
-          (GenSrcPwCustom.rowCur a m j (j % 2) (i - 1) tsL)) >>= fun r' =>
-        Res.ok (GenSrcPwCustom.writeRow a m (j % 2) i j r') :=
-  GenSrcPwCustom.cell_update_mod_ties w T a x m n i j q xclip tsL tsU hd hx hi him hj hjn hreset hL hU
-
-/-- … and for tie-breaks that behave like the pinned text (strict `>` at all three sites) the row is **`stepJC`** of the
-checked-`i32` mirror itself.  Stated for an abstract `T` (so that a property-preserving change of a tie-break in the text —
-seeded C01-H1, C01-H2 — does not falsify it; what the text's own tests must satisfy is `tie_breaks_source_admissible`). -/
-theorem cell_update_source_eq_model (w : Nat → Nat → Int) (T : GenSrcPwCustom.Ties) (hT : T = GenSrcPwCustom.pinned)
-    (a : RbV.Gen.SrcPwTypes.Aligner) (x y : List Nat) (i j : Nat) (xclip : Int) (prev : List RbV.Model.PairwiseFill.Row)
-    (r : RbV.Model.PairwiseFill.Row) (hd : GenSrcPwCustom.Dims a x.length y.length) (hi : 1 ≤ i) (him : i ≤ x.length)
-    (hj : 1 ≤ j) (hjn : j ≤ y.length) (hreset : i ≠ x.length → (a.S.getD (j % 2) []).getD i 0 = minScore)
-    (hL : GenSrcPwCustom.SIs a (i - 1) j r.t.ts) (hU : GenSrcPwCustom.SIs a i (j - 1) (prev.getD i default).t.ts)
-    (hr : GenSrcPwCustom.rowCur a x.length j (j % 2) (i - 1) r.t.ts = r)
-    (hp1 : GenSrcPwCustom.rowPrev1 a (1 - j % 2) (i - 1) = prev.getD (i - 1) default)
-    (hp : GenSrcPwCustom.rowPrev a (1 - j % 2) i (prev.getD i default).t.ts = prev.getD i default) :
-    RbV.Gen.SrcPwCustom.custom_for5 w T.iT T.dT T.snT T.sn0T x x.length y.length j (j % 2) (1 - j % 2) (y.getD (j - 1) 0) xclip a i =
-      GenSrcPwCustom.ofOpt (RbV.Model.PairwiseFill.stepJC (GenSrcPwCustom.scOf w a) (GenSrcPwCustom.clOf a) x y j prev xclip i r)
-        >>= fun r' => Res.ok (GenSrcPwCustom.writeRow a x.length (j % 2) i j r') := by
-  subst hT
-  rw [GenSrcPwCustom.cell_update_mod_ties w GenSrcPwCustom.pinned a x x.length y.length i j (y.getD (j - 1) 0) xclip r.t.ts
-    (prev.getD i default).t.ts hd rfl hi him hj hjn hreset hL hU, hr, hp1, hp, GenSrcPwCustom.stepJT_pinned]
+/-- **One cell of the main loop of `Aligner::custom` (translated text): scores and trackers = the checked-`i32` mirror, traceback
+codes admissible — for any order in which the text compares the candidates and any `>` / `>=` at the ties.**
+`RbV.Gen.SrcPwCustom.custom_for5` is the body of `for i in 1..m + 1` as translated from the text.  There is a chooser `sCode` of
+the S-layer code (read off the text) that is **admissible** (`SCodeOk`: the code it returns names a candidate — x-suffix
+placeholder, Match/Subst, Ins, Del, x-prefix clip, y-prefix clip — whose score **is** the value of the S layer, the maximum of
+the six: "the code explains the value") such that on every aligner state of the right shape (`CellEq`: `Dims`, `1 ≤ i ≤ m`,
+`1 ≤ j ≤ n`, valid codes in the S fields of the cells `(i−1, j)`, `(i, j−1)`) the body panics exactly when the checked-`i32` row is
+`none` and otherwise writes exactly the row `stepJS T sCode …`: `S/I/D[curr][i]`, the register `S[curr][m]`, `Sn[i]`, `Ly[i]`,
+`Lx[j]` have the mirror's **values** (S = max of the candidates; I, D = the better of extend / open), the I and D codes are
+those of the tie-break `T`, the S code is `sCode`'s; nothing else is written.  The exact code equality with the mirror the
+driver runs (`stepJT T`, `stepJC`: the *pinned* order of the candidates) is the **soft** module
+`Thm/GenSrcPwCustomExact.lean` (seeded C01-H4 changes that order: soft note, this theorem re-proves). -/
+theorem cell_update_source_values_and_admissible_codes (w : Nat → Nat → Int) (T : GenSrcPwCustom.Ties) :
+    ∃ sCode : GenSrcPwCustom.SCodeFn, GenSrcPwCustom.SCodeOk T sCode ∧ GenSrcPwCustom.CellEq w T sCode :=
+  GenSrcPwCustom.cell_update_any_order w T
 
 /-- **The tie-breaks found in the text are admissible** (true when strictly greater, false when strictly smaller — `>` or
 `>=` in either operand order); a test that is neither (e.g. `<`, or another operand) fails here. -/
@@ -730,24 +709,28 @@ theorem mode_wrappers_source_history_independent (w : Nat → Nat → Int) (iT d
 mirror, for every tie-break `T`.**  From a state that holds rows `0 ..= i` of column `j` (`ColInv`: the `curr` halves of
 `S/I/D`, the register `S[curr][m]`, `Sn`, `Ly`, `Lx[j]`, the bit-packed cells `(k, j)`; the previous column in the `prev`
 halves; frame `oc`, `olx` for every other column), the translated `for i in i+1 ..= m` panics exactly when one of the
-remaining rows `stepJT T …` is `none` (an `i32` overflow), and otherwise ends in a state that holds the whole column
+remaining rows `stepJS T sCode …` is `none` (an `i32` overflow), and otherwise ends in a state that holds the whole column
 (`ColInv … m`, rows = `colRows (stepT T …)`), with `scoring` and the frame untouched.
 **Missing for `custom_fill_source_eq_model`** (not proved; every piece is translated and evaluated in the examples above):
 the column-0 initialisation (`custom_for1/2`: establishes `ColInv` for column 0), the `i = 0` block and the reset loop of a column
 (`custom_for3` up to its inner loop: establishes `ColInv … 0` from the previous column), the induction over `j`, the two
 post-loops (`custom_for6/7`), and `colRows` of all columns = `fillC` with the pinned tie-breaks. -/
-theorem custom_fill_source_eq_model_partial (w : Nat → Nat → Int) (T : GenSrcPwCustom.Ties) (x : List Nat) (m n j q : Nat)
+theorem custom_fill_source_eq_model_partial (w : Nat → Nat → Int) (T : GenSrcPwCustom.Ties) :
+    ∃ sCode : GenSrcPwCustom.SCodeFn, GenSrcPwCustom.SCodeOk T sCode ∧
+    ∀ (x : List Nat) (m n j q : Nat)
     (xc : Int) (pc : List RbV.Model.PairwiseFill.Row) (oc : Nat → Nat → RbV.Gen.SrcPwTypes.TracebackCell) (olx : Nat → Nat)
     (hx : x.length = m) (hj : 1 ≤ j) (hjn : j ≤ n) (k i : Nat) (a : RbV.Gen.SrcPwTypes.Aligner)
     (cur : List RbV.Model.PairwiseFill.Row) (hinv : GenSrcPwColumn.ColInv a m n j i pc cur oc olx) (hlen : cur.length = i + 1)
-    (hik : i + k = m) :
-    match GenSrcPwColumn.colRows (GenSrcPwColumn.stepT T (GenSrcPwCustom.scOf w a) (GenSrcPwCustom.clOf a) x m n j q xc pc) k i cur with
+    (hik : i + k = m),
+    match GenSrcPwColumn.colRows (GenSrcPwColumn.stepT T sCode (GenSrcPwCustom.scOf w a) (GenSrcPwCustom.clOf a) x m n j q xc pc) k i cur with
     | none => List.foldlM (RbV.Gen.SrcPwCustom.custom_for5 w T.iT T.dT T.snT T.sn0T x m n j (j % 2) (1 - j % 2) q xc) a
         (List.range' (i + 1) k) = Res.panic
     | some col => ∃ a', List.foldlM (RbV.Gen.SrcPwCustom.custom_for5 w T.iT T.dT T.snT T.sn0T x m n j (j % 2) (1 - j % 2) q xc) a
         (List.range' (i + 1) k) = Res.ok a' ∧ GenSrcPwColumn.ColInv a' m n j m pc col oc olx ∧ col.length = m + 1 ∧
-        a'.scoring = a.scoring :=
-  GenSrcPwColumn.column_loop w T x m n j q xc pc _ _ oc olx hx hj hjn k i a cur hinv hlen hik rfl rfl
+        a'.scoring = a.scoring := by
+  obtain ⟨sCode, hok, hcell⟩ := GenSrcPwCustom.cell_update_any_order w T
+  exact ⟨sCode, hok, fun x m n j q xc pc oc olx hx hj hjn k i a cur hinv hlen hik =>
+    GenSrcPwColumn.column_loop w T x m n j q xc pc _ _ sCode hcell oc olx hx hj hjn k i a cur hinv hlen hik rfl rfl⟩
 
 /-- **The reset loop of a column (translated text)**: `for i in 1..=m { self.S[curr][i] = MIN_SCORE; }` over `i .. i + k` overwrites
 exactly the entries `S[curr][i .. i + k)` with `MIN_SCORE` and touches nothing else (one more piece of
